@@ -316,8 +316,11 @@ def run_rect(case, res):
         res["violations"].append(core.viol("does_not_terminate" if err == "timeout" else "generator_raised", case, msg=f"rectangle {W}x{H} at ({ox},{oy}), spacing {s}: {err}", rotation=0.0))
         return
     nx, ny = int(W // s), int(H // s)
-    want = sorted((round(ox + i * W / nx, 6), round(oy + j * H / ny, 6)) for i in range(nx + 1) for j in range(ny + 1))
     got = sorted((round(float(x), 6), round(float(y), 6)) for x, y in np.asarray(out).reshape(-1, 2))
+    # a side shorter than one spacing holds a single line of boreholes; where on the side is not stated, so it is read off the field
+    xs = [round(ox + i * W / nx, 6) for i in range(nx + 1)] if nx else sorted({p[0] for p in got})[:1]
+    ys = [round(oy + j * H / ny, 6) for j in range(ny + 1)] if ny else sorted({p[1] for p in got})[:1]
+    want = sorted((x, y) for x in xs for y in ys)
     if got != want:
         res["violations"].append(core.viol("rectangle_lattice_wrong", case, observed=len(got), expected=len(want),
                                            msg=f"rectangle {W}x{H} at ({ox},{oy}), spacing {s}: {len(got)} boreholes, expected the {nx + 1}x{ny + 1} lattice with pitches {W / nx:.4f} x {H / ny:.4f}"))
@@ -353,6 +356,15 @@ def run_opt(case, res):
     field, ng = _rw.gen_shape(lot, [nogo] if nogo else None)
     res["evals"] += 1
     nrot = max(1, int((stop - start) / step) + 1)
+    if nogo and case.get("outline_used_before"):
+        # the same outline object was optimised before without the zones (and with other zones): a study that adds exclusion zones
+        other = [[x + 9.0, y - 6.0] for x, y in nogo]
+        _, ng_other = _rw.gen_shape(lot, [other])
+        for zz in (None, ng_other):
+            if ratio is None:
+                with_horizon(_rw.field_optimization_fr, s, step, field, ng_zones=zz, rotate_start=start * math.pi / 180, rotate_stop=stop * math.pi / 180, _budget=HORIZON_S + 0.4 * nrot)
+            else:
+                with_horizon(_rw.field_optimization_wp_space_fr, ratio, s, step, field, ng_zones=zz, rotate_start=start * math.pi / 180, rotate_stop=stop * math.pi / 180, _budget=HORIZON_S + 0.4 * nrot)
     if ratio is None:
         out, err = with_horizon(_rw.field_optimization_fr, s, step, field, ng_zones=ng, rotate_start=start * math.pi / 180, rotate_stop=stop * math.pi / 180, _budget=HORIZON_S + 0.4 * nrot)
     else:
@@ -734,6 +746,13 @@ def main(run: core.Run, only=None):
                 for ox, oy in ((0.0, 0.0), (7.5, 3.0)):
                     if W >= 2 * s and H >= 2 * s:
                         rects.append({"kind": "rect", "W": W, "H": H, "spacing": s, "ox": ox, "oy": oy})
+    # strips: a side of exactly one spacing (two lines of boreholes), of 1.5 spacings (two), of 0.75 spacings (one)
+    for s in (7.5, 10.0) if quick else (5.0, 6.0, 7.5, 10.0, 12.5):
+        for f in (1.0, 1.5, 0.75):
+            for other in (41.0, 4 * s + 7.0):
+                for ox, oy in ((0.0, 0.0), (7.5, 3.0)):
+                    rects.append({"kind": "rect", "W": f * s, "H": other, "spacing": s, "ox": ox, "oy": oy})
+                    rects.append({"kind": "rect", "W": other, "H": f * s, "spacing": s, "ox": ox, "oy": oy})
     run.drive(rects, family="rectangles")
     opts = []
     windows = [(-90.0, 90.0, 15.0), (-90.0, 0.0, 5.0), (0.0, 90.0, 15.0), (-30.0, 30.0, 5.0), (0.0, 10.0, 4.0), (-10.0, 10.0, 3.0)]
@@ -768,6 +787,7 @@ def main(run: core.Run, only=None):
                 for ratio in (None, 0.8):
                     opts.append({"kind": "opt", "poly": [list(p) for p in poly], "scale": scale, "offset": 7.5, "spacing": 10.0 if scale == 20.0 else 12.0,
                                  "window": [-90.0, 90.0, 30.0], "ratio": ratio, "nogo": ng})
+                    opts.append(dict(opts[-1], outline_used_before=True))
     run.drive(opts, family="optimisers")
     nogos = [{"kind": "nogo", "lot": lot, "zones": z, "spacing": sp, "axes": [0.0, 30.0, 90.0], "rots": [-90.0, -45.0, 0.0, 30.0, 75.0] if quick else ROTS}
              for lot in NOGO_LOTS for z in ZONE_SPECS for sp in ((7.3,) if quick else (5.3, 7.3, 10.0, 11.9))]
